@@ -24,7 +24,7 @@ INV = {
     'C16': ['Inv_C16_NoDeployUnlessAdmissible', 'Inv_C16_Conditions', 'Inv_C16_NoRepull', 'Inv_C16_TemplateIsRender', 'Inv_C16_ValidPackageDeploys', 'Inv_C19_NoPanic'],
     'C17': ['Inv_C17_Verdict', 'Inv_C17_AllFailuresReported', 'Inv_C17_CELMustBeBoolean', 'Inv_C17_ObjectUnchanged', 'Inv_C17_NoPanic'],
     'C18': ['Inv_C18_OutputIsRender', 'Inv_C18_InvalidNoWrite', 'Inv_C18_Freed', 'Inv_C11_Scope', 'Inv_C19_NoPanic'],
-    'C19': ['Inv_C19_NoPanic'],
+    'C19': ['Inv_C19_NoPanic', 'Inv_C19_DomainCovered'],
 }
 
 
@@ -114,6 +114,7 @@ GUARDS = {'C18': lambda e: e['ev'] == 'C18Check',
           'C09': g_paused, 'C11': g_preflight}
 
 RULES = {
+    'C19': 'one case = one (entry point, shape class) row of spec/Shapes.tla; every row is distinct and reaches the real entry point',
     'C18': 'non-trivial: a quiescence checkpoint of a seeded history of source creations / edits / deletions, template edits, output tampering and restarts was judged; distinct by event sequence',
     'C16': 'non-trivial: the Package controller pulled an image (valid, each invalidity class, unmet constraints, pull failure) in a seeded walk with spec edits, API faults and conflicts; distinct by event sequence',
     'C13': 'one case = one abstract package rendered k times in one process; distinct abstract packages are counted',
@@ -138,6 +139,7 @@ RULES = {
 
 # table-like drivers: one event = one case; distinct cases are counted by the abstract row itself
 ROWKEY = {
+    'C19': ('C19Row', lambda e: e['args']['entry'] + '/' + e['args']['shape']),
     'C13': ('C13Row', lambda e: json.dumps(e['args']['pkg'], sort_keys=True)),
     'C17': ('C17Row', lambda e: json.dumps([e['args']['probes'], e['args']['obj']], sort_keys=True)),
 }
@@ -352,6 +354,11 @@ CHECKS = {
         'template domain: one template family (required + optional ConfigMap source), unparsable template, out-of-namespace source / target'],
         jobs=lambda tier, seed: [dict(name='template-walk', shards=4 if tier == 'quick' else 14,
                                       driver=['template-walk', '-n', '140' if tier == 'quick' else '7000', '-steps', '14', '-seed', str(seed)])]),
+    'C19': dict(level='exploration', invariants=INV['C19'], module='TraceShapes',
+                assumptions=['reduced scope: shape classes of the inputs that reach a type assertion, index expression or validated-elsewhere assumption; byte-level inputs are NOT covered (the technique cannot quantify over byte strings)',
+                             'every other check of this framework also treats a recovered panic in a reconcile pass as a C19 violation (Inv_C19_NoPanic in TraceObs)'],
+                level_text='Exploration: every shape class declared in spec/Shapes.tla (condition-map annotations, manifests, object documents, OCI layers, status shapes of managed and templated objects, ObjectTemplate source items and outputs) is run through the real entry point (package pipeline, kubectl-package tree/validate, ObjectSet and ObjectTemplate reconciles) under recover with a watchdog; TLC checks that no row panics or times out and that the declared domain was covered.',
+                jobs=lambda tier, seed: [dict(name='shape-table', module='TraceShapes', shards=1, driver=['shape-table'])]),
     'C20': dict(level='model_checking', invariants=INV['C20'], module='TraceReqMgr',
                 assumptions=['the registry pull is a gated test function installed through a build-tag guarded accessor; RequestManager, its lock, channels and deep copies are the real code',
                              'interleavings inside the mutex-protected sections are reached only by chance (stress driver)'],
